@@ -170,7 +170,10 @@ def project_variants(rng):
     files['snaps/r1-snapshot.yml'] = rng.choice(snaps)
     files['tests/__snapshots__/r1-snapshot.yml'] = rng.choice(snaps)
     argv = rng.choice([['scan', '-c', 'sgconfig.yml', '--json=stream'], ['test', '-c', 'sgconfig.yml'], ['test', '-c', 'sgconfig.yml', '--skip-snapshot-tests'],
-                       ['scan', '--json=stream'], ['test', '-c', 'sgconfig.yml', '-U'], ['scan', '-c', 'sgconfig.yml', '-U']])
+                       ['scan', '--json=stream'], ['test', '-c', 'sgconfig.yml', '-U'], ['scan', '-c', 'sgconfig.yml', '-U'],
+                       # every printer: the coloured report, the short style, the GitHub format
+                       ['scan', '-c', 'sgconfig.yml', '--color', 'never'], ['scan', '--report-style', 'short', '--color', 'never'], ['scan', '--format', 'github'],
+                       ['scan', '-c', 'sgconfig.yml', '--color', 'never', '-A', '1']])
     return files, argv
 
 
